@@ -17,6 +17,7 @@ static void region_hook(int type, long off) { OVERWRITES.push_back(std::make_pai
 static const char PAYLOAD[] = "PAYLOAD-PAYLOAD!";
 
 struct Item { long code; Bytes data; long lenfield; };
+static unsigned ALT = 0;      // alternates between the rvalue and the const& overload of add_option / add_tag
 struct Kind {
     virtual ~Kind() {}
     virtual PDU* root() = 0;                                  // the whole packet (for serialisation)
@@ -32,7 +33,7 @@ template <class OPT> static Item item_of(const OPT& o, long code) { Item i; i.co
 
 struct KTCP : Kind { EthernetII pkt; TCP* t; KTCP() { pkt = EthernetII() / IP("1.2.3.4", "4.3.2.1") / TCP(1, 2) / RawPDU(PAYLOAD); t = pkt.find_pdu<TCP>(); }
     PDU* root() { return &pkt; } long concrete(long c) { return c == 0 ? 253 : c == 1 ? 254 : 1; }
-    bool add(long c, const Bytes& d, long sp) { if (sp >= 0) t->add_option(TCP::option((TCP::OptionTypes)c, (uint16_t)sp, d.begin(), d.end())); else t->add_option(TCP::option((TCP::OptionTypes)c, d.begin(), d.end())); return true; }
+    bool add(long c, const Bytes& d, long sp) { if (sp >= 0) t->add_option(TCP::option((TCP::OptionTypes)c, (uint16_t)sp, d.begin(), d.end())); else { if (ALT++ % 2) t->add_option(TCP::option((TCP::OptionTypes)c, d.begin(), d.end())); else { TCP::option named((TCP::OptionTypes)c, d.begin(), d.end()); t->add_option(named); } }; return true; }
     int remove(long c) { return t->remove_option((TCP::OptionTypes)c) ? 1 : 0; }
     std::vector<Item> lst(TCP* x) { std::vector<Item> r; TCP::options_type opts_copy = x->options(); for (TCP::options_type::const_iterator it = opts_copy.begin(); it != opts_copy.end(); ++it) r.push_back(item_of(*it, it->option())); return r; }
     std::vector<Item> list() { return lst(t); }
@@ -42,7 +43,7 @@ struct KTCP : Kind { EthernetII pkt; TCP* t; KTCP() { pkt = EthernetII() / IP("1
 struct KIP : Kind { EthernetII pkt; IP* t; KIP() { pkt = EthernetII() / IP("1.2.3.4", "4.3.2.1") / UDP(1, 2) / RawPDU(PAYLOAD); t = pkt.find_pdu<IP>(); }
     PDU* root() { return &pkt; } long concrete(long c) { return c == 0 ? 0x88 : c == 1 ? 0x94 : 1; }
     static long code_of(const IP::option& o) { const IP::option_identifier& id = o.option(); return (id.copied << 7) | (id.op_class << 5) | id.number; }
-    bool add(long c, const Bytes& d, long sp) { if (sp >= 0) t->add_option(IP::option(IP::option_identifier((uint8_t)c), (uint16_t)sp, d.begin(), d.end())); else t->add_option(IP::option(IP::option_identifier((uint8_t)c), d.begin(), d.end())); return true; }
+    bool add(long c, const Bytes& d, long sp) { if (sp >= 0) t->add_option(IP::option(IP::option_identifier((uint8_t)c), (uint16_t)sp, d.begin(), d.end())); else { if (ALT++ % 2) t->add_option(IP::option(IP::option_identifier((uint8_t)c), d.begin(), d.end())); else { IP::option named(IP::option_identifier((uint8_t)c), d.begin(), d.end()); t->add_option(named); } }; return true; }
     int remove(long c) { return t->remove_option(IP::option_identifier((uint8_t)c)) ? 1 : 0; }
     std::vector<Item> lst(IP* x) { std::vector<Item> r; IP::options_type opts_copy = x->options(); for (IP::options_type::const_iterator it = opts_copy.begin(); it != opts_copy.end(); ++it) r.push_back(item_of(*it, code_of(*it))); return r; }
     std::vector<Item> list() { return lst(t); }
@@ -59,7 +60,7 @@ struct KIP6 : Kind { EthernetII pkt; IPv6* t; KIP6() { pkt = EthernetII() / IPv6
     std::vector<Item> list_of(PDU& p) { return lst(&p.rfind_pdu<IPv6>()); } };
 struct KICMP6 : Kind { EthernetII pkt; ICMPv6* t; KICMP6() { pkt = EthernetII() / IPv6("2001:db8::1", "2001:db8::2") / ICMPv6(ICMPv6::ROUTER_ADVERT); t = pkt.find_pdu<ICMPv6>(); /* everything after an RA header is options: no payload */ }
     PDU* root() { return &pkt; } long concrete(long c) { return c == 0 ? 200 : c == 1 ? 201 : 202; }
-    bool add(long c, const Bytes& d, long sp) { if (sp >= 0) t->add_option(ICMPv6::option((uint8_t)c, (uint16_t)sp, d.begin(), d.end())); else t->add_option(ICMPv6::option((uint8_t)c, d.begin(), d.end())); return true; }
+    bool add(long c, const Bytes& d, long sp) { if (sp >= 0) t->add_option(ICMPv6::option((uint8_t)c, (uint16_t)sp, d.begin(), d.end())); else { if (ALT++ % 2) t->add_option(ICMPv6::option((uint8_t)c, d.begin(), d.end())); else { ICMPv6::option named((uint8_t)c, d.begin(), d.end()); t->add_option(named); } }; return true; }
     int remove(long c) { return t->remove_option((ICMPv6::OptionTypes)c) ? 1 : 0; }
     std::vector<Item> lst(ICMPv6* x) { std::vector<Item> r; ICMPv6::options_type opts_copy = x->options(); for (ICMPv6::options_type::const_iterator it = opts_copy.begin(); it != opts_copy.end(); ++it) r.push_back(item_of(*it, it->option())); return r; }
     std::vector<Item> list() { return lst(t); }
@@ -68,7 +69,7 @@ struct KICMP6 : Kind { EthernetII pkt; ICMPv6* t; KICMP6() { pkt = EthernetII() 
     std::vector<Item> list_of(PDU& p) { return lst(&p.rfind_pdu<ICMPv6>()); } };
 struct KDHCP : Kind { DHCP pkt; KDHCP() { pkt.chaddr(HWAddress<6>("00:11:22:33:44:55")); }
     PDU* root() { return &pkt; } long concrete(long c) { return c == 0 ? 224 : c == 1 ? 225 : 226; }
-    bool add(long c, const Bytes& d, long sp) { if (sp >= 0) pkt.add_option(DHCP::option((uint8_t)c, (uint16_t)sp, d.begin(), d.end())); else pkt.add_option(DHCP::option((uint8_t)c, d.begin(), d.end())); return true; }
+    bool add(long c, const Bytes& d, long sp) { if (sp >= 0) pkt.add_option(DHCP::option((uint8_t)c, (uint16_t)sp, d.begin(), d.end())); else { if (ALT++ % 2) pkt.add_option(DHCP::option((uint8_t)c, d.begin(), d.end())); else { DHCP::option named((uint8_t)c, d.begin(), d.end()); pkt.add_option(named); } }; return true; }
     int remove(long c) { return pkt.remove_option((DHCP::OptionTypes)c) ? 1 : 0; }
     std::vector<Item> lst(const DHCP* x) { std::vector<Item> r; DHCP::options_type opts_copy = x->options(); for (DHCP::options_type::const_iterator it = opts_copy.begin(); it != opts_copy.end(); ++it) r.push_back(item_of(*it, it->option())); return r; }
     std::vector<Item> list() { return lst(&pkt); }
@@ -77,7 +78,7 @@ struct KDHCP : Kind { DHCP pkt; KDHCP() { pkt.chaddr(HWAddress<6>("00:11:22:33:4
     std::vector<Item> list_of(PDU& p) { return lst(static_cast<DHCP*>(&p)); } };
 struct KDHCP6 : Kind { DHCPv6 pkt; KDHCP6() { pkt.msg_type(DHCPv6::SOLICIT); pkt.transaction_id(7); }
     PDU* root() { return &pkt; } long concrete(long c) { return c == 0 ? 1000 : c == 1 ? 1001 : 1002; }
-    bool add(long c, const Bytes& d, long sp) { if (sp >= 0) pkt.add_option(DHCPv6::option((uint16_t)c, (uint16_t)sp, d.begin(), d.end())); else pkt.add_option(DHCPv6::option((uint16_t)c, d.begin(), d.end())); return true; }
+    bool add(long c, const Bytes& d, long sp) { if (sp >= 0) pkt.add_option(DHCPv6::option((uint16_t)c, (uint16_t)sp, d.begin(), d.end())); else { if (ALT++ % 2) pkt.add_option(DHCPv6::option((uint16_t)c, d.begin(), d.end())); else { DHCPv6::option named((uint16_t)c, d.begin(), d.end()); pkt.add_option(named); } }; return true; }
     int remove(long c) { return pkt.remove_option((DHCPv6::OptionTypes)c) ? 1 : 0; }
     std::vector<Item> lst(const DHCPv6* x) { std::vector<Item> r; DHCPv6::options_type opts_copy = x->options(); for (DHCPv6::options_type::const_iterator it = opts_copy.begin(); it != opts_copy.end(); ++it) r.push_back(item_of(*it, it->option())); return r; }
     std::vector<Item> list() { return lst(&pkt); }
@@ -86,7 +87,7 @@ struct KDHCP6 : Kind { DHCPv6 pkt; KDHCP6() { pkt.msg_type(DHCPv6::SOLICIT); pkt
     std::vector<Item> list_of(PDU& p) { return lst(static_cast<DHCPv6*>(&p)); } };
 struct KDOT11 : Kind { Dot11ProbeRequest pkt; KDOT11() { pkt.addr1("ff:ff:ff:ff:ff:ff"); pkt.addr2("00:01:02:03:04:05"); }
     PDU* root() { return &pkt; } long concrete(long c) { return c == 0 ? 200 : c == 1 ? 201 : 202; }
-    bool add(long c, const Bytes& d, long sp) { if (sp >= 0) pkt.add_option(Dot11::option((uint8_t)c, (uint16_t)sp, d.begin(), d.end())); else pkt.add_option(Dot11::option((uint8_t)c, d.begin(), d.end())); return true; }
+    bool add(long c, const Bytes& d, long sp) { if (sp >= 0) pkt.add_option(Dot11::option((uint8_t)c, (uint16_t)sp, d.begin(), d.end())); else { if (ALT++ % 2) pkt.add_option(Dot11::option((uint8_t)c, d.begin(), d.end())); else { Dot11::option named((uint8_t)c, d.begin(), d.end()); pkt.add_option(named); } }; return true; }
     int remove(long c) { return pkt.remove_option((Dot11::OptionTypes)c) ? 1 : 0; }
     std::vector<Item> lst(const Dot11* x) { std::vector<Item> r; Dot11::options_type opts_copy = x->options(); for (Dot11::options_type::const_iterator it = opts_copy.begin(); it != opts_copy.end(); ++it) r.push_back(item_of(*it, it->option())); return r; }
     std::vector<Item> list() { return lst(&pkt); }
@@ -95,7 +96,7 @@ struct KDOT11 : Kind { Dot11ProbeRequest pkt; KDOT11() { pkt.addr1("ff:ff:ff:ff:
     std::vector<Item> list_of(PDU& p) { return lst(static_cast<Dot11*>(&p)); } };
 struct KPPPOE : Kind { EthernetII pkt; PPPoE* t; KPPPOE() { PPPoE p; p.code(0x09); pkt = EthernetII() / p; t = pkt.find_pdu<PPPoE>(); }
     PDU* root() { return &pkt; } long concrete(long c) { return c == 0 ? 0x0201 : c == 1 ? 0x0202 : 0x0203; }
-    bool add(long c, const Bytes& d, long sp) { if (sp >= 0) t->add_tag(PPPoE::tag((PPPoE::TagTypes)Endian::host_to_be<uint16_t>((uint16_t)c), (uint16_t)sp, d.begin(), d.end())); else t->add_tag(PPPoE::tag((PPPoE::TagTypes)Endian::host_to_be<uint16_t>((uint16_t)c), d.begin(), d.end())); return true; }
+    bool add(long c, const Bytes& d, long sp) { if (sp >= 0) t->add_tag(PPPoE::tag((PPPoE::TagTypes)Endian::host_to_be<uint16_t>((uint16_t)c), (uint16_t)sp, d.begin(), d.end())); else { if (ALT++ % 2) t->add_tag(PPPoE::tag((PPPoE::TagTypes)Endian::host_to_be<uint16_t>((uint16_t)c), d.begin(), d.end())); else { PPPoE::tag named((PPPoE::TagTypes)Endian::host_to_be<uint16_t>((uint16_t)c), d.begin(), d.end()); t->add_tag(named); } }; return true; }
     std::vector<Item> lst(PPPoE* x) { std::vector<Item> r; PPPoE::tags_type opts_copy = x->tags(); for (PPPoE::tags_type::const_iterator it = opts_copy.begin(); it != opts_copy.end(); ++it) r.push_back(item_of(*it, Endian::be_to_host<uint16_t>((uint16_t)it->option()))); return r; }
     std::vector<Item> list() { return lst(t); }
     bool find(long c, Item& o) { const PPPoE::tag* x = t->search_tag((PPPoE::TagTypes)Endian::host_to_be<uint16_t>((uint16_t)c)); if (!x) return false; o = item_of(*x, Endian::be_to_host<uint16_t>((uint16_t)x->option())); return true; }
